@@ -13,6 +13,7 @@ CONSTANTS
   ResetChoices <- RepairedOnly
   TamperTags <- Replays
   CacheChoices = {"payload", "peer"}
+  AckCodeChoices <- CodeAcks
   Concurrent = FALSE
   RecordHist = TRUE
 INVARIANT EmitUnsound
